@@ -2030,12 +2030,75 @@ def translate_lagvals(repo):
     return head + body + '\nend PygyroVerif.Gen.LagVals\n'
 
 
+CROSS2D_SEMANTICS = (
+    'The two loops `for i, x in enumerate(X)` / `for j, y in enumerate(Y)` are nested; every (der1, der2) branch of the source has its OWN copy of the four\n'
+    'loops (they are numbered in source order: branch b = 0..3 owns loops 4b+1 … 4b+4: over X, over Y, over the rows k, over the columns l).  The local arrays\n'
+    '`basis1`, `basis2`, `theCoeffs` are obtained ONCE with `empty` (contents `U`) and re-used by every iteration: iteration (i, j) hands the kernels what the\n'
+    'previous iteration left in them.  `z` is a 2-D array `Nat → Nat → Rat` written at the one position `[i, j]`; its extents and those of `coeffs` are not\n'
+    'modelled.  A branch condition `der1 == a and der2 == b` is the conjunction; when no branch applies the function returns without writing.\n')
+
+
+def translate_cross2d(repo):
+    """the 2-D CROSS entry points `nu_eval_spline_2d_cross` (spline_eval_funcs.py) and `cu_eval_spline_2d_cross` (cubic_uniform_spline_eval_funcs.py):
+    `z[i, j]` = the 2-D evaluation at `(X[i], Y[j])`; the kernels they call are those of EvalSplineGen.lean / BasisFunsGen.lean / CubicUniformGen.lean"""
+    nu = ['nu_basis_funs', 'nu_find_span', 'nu_basis_funs_1st_der', 'nu_eval_spline_2d_cross']
+    tr, fns, sha_nu = spline_functions(repo, nu)
+    tr.slices = True
+    nu_part = [tr.function(f) for f in fns][-1]        # the first three only register the signatures of the callees
+    cu = ['cu_find_span', 'cu_basis_funs', 'cu_basis_funs_1st_der', 'cu_eval_spline_2d_cross']
+    tr, fns, sha_cu = kernel_functions(repo, CU_REL, cu, int_type='Int')
+    tr.slices = True
+    cu_part = [tr.function(f) for f in fns][-1]
+    head = ('/-\nGENERATED by harness/translate_pure.py from %s, function %s, and %s, function %s\n'
+            '(calling the kernels of BasisFunsGen.lean, EvalSplineGen.lean and CubicUniformGen.lean; sha256 of the sources of the functions and their\n'
+            'callees %s / %s) — do not edit.\n%s%s%s%s%s%s-/\n'
+            'import PygyroVerif.Generated.EvalSplineGen\nimport PygyroVerif.Generated.CubicUniformGen\n\n'
+            'set_option linter.unusedVariables false\n'
+            % (SPLINE_REL, nu[-1], CU_REL, cu[-1], sha_nu, sha_cu, SPLINE_SEMANTICS, ARRAY_SEMANTICS_ND,
+               INT_SEMANTICS.replace('In this file', 'In the namespace Cross2DCu'), SLICE2D_SEMANTICS, EXT_SEMANTICS.split('Calls of')[0], CROSS2D_SEMANTICS))
+    return (head + 'namespace PygyroVerif.Gen.Cross2DNu\nopen PygyroVerif.Gen.BasisFuns PygyroVerif.Gen.EvalSpline\n\n' + nu_part
+            + '\nend PygyroVerif.Gen.Cross2DNu\n\nnamespace PygyroVerif.Gen.Cross2DCu\nopen PygyroVerif.Gen.CubicUniform\n\n' + cu_part
+            + '\nend PygyroVerif.Gen.Cross2DCu\n')
+
+
+VEC2D_SEMANTICS = (
+    'Every (der1, der2) branch of the source has its OWN copy of the three loops (numbered in source order: branch b = 0..3 owns loops 3b+1 … 3b+3: over the\n'
+    'points, over the rows, over the columns).  `for i in range(len(x))` makes `len(x)` iterations and reads `x[i]`, `y[i]` where the source does (the length of\n'
+    '`y` is not consulted, as in the source); `for i, xi in enumerate(x)` as described above.  The array parameters of these two functions are NOT annotated\n'
+    '`Final`; the translation checks that only `z` is written (an array that is not `Final` may be handed to a `Final` parameter of a kernel).  The local\n'
+    'arrays `basis1`, `basis2`, `theCoeffs` are obtained ONCE with `empty` (contents `U`) and re-used by every iteration.  The branches are nested:\n'
+    '`if der1 == 0: (if der2 == 0 … elif der2 == 1 …) elif der1 == 1: (…)`; when no branch applies the function returns without writing.\n')
+
+
+def translate_vec2d(repo):
+    """the 2-D VECTOR entry points `nu_eval_spline_2d_vector` (spline_eval_funcs.py) and `cu_eval_spline_2d_vector` (cubic_uniform_spline_eval_funcs.py):
+    `z[k]` = the 2-D evaluation at `(x[k], y[k])`; the kernels they call are those of EvalSplineGen.lean / BasisFunsGen.lean / CubicUniformGen.lean"""
+    nu = ['nu_basis_funs', 'nu_find_span', 'nu_basis_funs_1st_der', 'nu_eval_spline_2d_vector']
+    tr, fns, sha_nu = spline_functions(repo, nu)
+    tr.slices = True
+    nu_part = [tr.function(f) for f in fns][-1]        # the first three only register the signatures of the callees
+    cu = ['cu_find_span', 'cu_basis_funs', 'cu_basis_funs_1st_der', 'cu_eval_spline_2d_vector']
+    tr, fns, sha_cu = kernel_functions(repo, CU_REL, cu, int_type='Int')
+    tr.slices = True
+    cu_part = [tr.function(f) for f in fns][-1]
+    head = ('/-\nGENERATED by harness/translate_pure.py from %s, function %s, and %s, function %s\n'
+            '(calling the kernels of BasisFunsGen.lean, EvalSplineGen.lean and CubicUniformGen.lean; sha256 of the sources of the functions and their\n'
+            'callees %s / %s) — do not edit.\n%s%s%s%s%s%s-/\n'
+            'import PygyroVerif.Generated.EvalSplineGen\nimport PygyroVerif.Generated.CubicUniformGen\n\n'
+            'set_option linter.unusedVariables false\n'
+            % (SPLINE_REL, nu[-1], CU_REL, cu[-1], sha_nu, sha_cu, SPLINE_SEMANTICS, ARRAY_SEMANTICS_ND,
+               INT_SEMANTICS.replace('In this file', 'In the namespace Vec2DCu'), SLICE2D_SEMANTICS, EXT_SEMANTICS.split('Calls of')[0], VEC2D_SEMANTICS))
+    return (head + 'namespace PygyroVerif.Gen.Vec2DNu\nopen PygyroVerif.Gen.BasisFuns PygyroVerif.Gen.EvalSpline\n\n' + nu_part
+            + '\nend PygyroVerif.Gen.Vec2DNu\n\nnamespace PygyroVerif.Gen.Vec2DCu\nopen PygyroVerif.Gen.CubicUniform\n\n' + cu_part
+            + '\nend PygyroVerif.Gen.Vec2DCu\n')
+
+
 def main():
     ap = argparse.ArgumentParser()
     ap.add_argument('--repo', default=os.environ.get('PYGYRO_REPO', '/repo'))
     ap.add_argument('--out', default=DEFAULT_OUT)
     ap.add_argument('--quiet', action='store_true')
-    ap.add_argument('--only', choices=['procgrid', 'blocks', 'grid', 'findspan', 'basisfuns', 'eval1d', 'flux', 'cueval', 'vpar', 'density', 'evalvec', 'polexpl', 'eval2d', 'lagvals', 'polimpl'], help='translate one target only')
+    ap.add_argument('--only', choices=['procgrid', 'blocks', 'grid', 'findspan', 'basisfuns', 'eval1d', 'flux', 'cueval', 'vpar', 'density', 'evalvec', 'polexpl', 'eval2d', 'lagvals', 'polimpl', 'cross2d', 'vec2d', 'initfuncs'], help='translate one target only')
     a = ap.parse_args()
     os.makedirs(a.out, exist_ok=True)
     status = 0
@@ -2053,7 +2116,10 @@ def main():
                            ('polexpl', 'PolExplGen.lean', lambda: translate_polexpl(a.repo)),
                            ('eval2d', 'Eval2DGen.lean', lambda: translate_eval2d(a.repo)),
                            ('lagvals', 'LagValsGen.lean', lambda: translate_lagvals(a.repo)),
-                           ('polimpl', 'PolImplGen.lean', lambda: translate_polimpl(a.repo))):
+                           ('polimpl', 'PolImplGen.lean', lambda: translate_polimpl(a.repo)),
+                           ('cross2d', 'Cross2DGen.lean', lambda: translate_cross2d(a.repo)),
+                           ('vec2d', 'Vec2DGen.lean', lambda: translate_vec2d(a.repo)),
+                           ('initfuncs', 'InitFuncsGen.lean', lambda: translate_initfuncs(a.repo))):
         if a.only and a.only != key:
             continue
         path = os.path.join(a.out, fname)
